@@ -260,40 +260,7 @@ func c19use(p *Prog, r *Report) {
 		}
 		r.Check(len(bad) == 0, rule, "PeerSet."+name+":writers", "-", "", "immutable after construction", "PeerSet."+name+" mutated after construction (memoised thresholds and hash would go stale): "+strings.Join(bad, ", "))
 	}
-	wnp := p.Func(PEER, "PeerSet", "WithNewPeer")
-	if wnp == nil {
-		r.Anchor(rule, "peers.(*PeerSet).WithNewPeer")
-		return
-	}
-	n := 0
-	for _, b := range wnp.Blocks {
-		for _, in := range b.Instrs {
-			c, ok := in.(*ssa.Call)
-			if !ok {
-				continue
-			}
-			if bi, isB := c.Call.Value.(*ssa.Builtin); isB && bi.Name() == "append" {
-				// the append that adds the new peer (a copy of the existing list is not concerned)
-				if len(c.Call.Args) < 2 || len(wnp.Params) < 2 || !dependsOn(c.Call.Args[1], func(x ssa.Value) bool { return x == ssa.Value(wnp.Params[1]) }) {
-					continue
-				}
-				n++
-				q := func(l Lit) bool {
-					lk, present, ok := lookupLit(l)
-					if !ok || present {
-						return false
-					}
-					fv, _ := fieldOf(lk.X)
-					return fv != nil && (refName(fv) == "ByID" || refName(fv) == "ByPubKey")
-				}
-				g, _ := p.allPaths(c, []Pred{q}, all(1))
-				r.Check(g, rule, "WithNewPeer:no-duplicates", p.ipos(c), fnName(wnp), "a peer already in the set is not appended again (len(Peers) stays equal to Len())", "WithNewPeer can append a peer that is already present: len(Peers) != Len() and TrustCount's n > 1 test uses the wrong count")
-			}
-		}
-	}
-	if n == 0 {
-		r.Fail(rule, "WithNewPeer:no-duplicates", p.pos(wnp.Pos()), fnName(wnp), "no append found in WithNewPeer")
-	}
+	noDupRule(p, r, rule)
 }
 
 // staleMemoAfterCopy: w writes a field of a PeerSet allocated in w.Fn. If that object was
@@ -348,4 +315,45 @@ func staleMemoAfterCopy(p *Prog, w *FieldWrite) []string {
 		}
 	}
 	return missing
+}
+
+// noDupRule: WithNewPeer appends the new peer only if it is not already a member BY IDENTITY (ByID,
+// keyed by the id derived from the decoded key bytes). The string-keyed ByPubKey map distinguishes
+// two spellings of one key: a peer added twice keeps len(Peers) != Len(), and a lone validator's
+// peer selector ends up with no selectable peer (rand.Intn(0) panics the gossip loop).
+func noDupRule(p *Prog, r *Report, rule string) {
+	wnp := p.Func(PEER, "PeerSet", "WithNewPeer")
+	if wnp == nil {
+		r.Anchor(rule, "peers.(*PeerSet).WithNewPeer")
+		return
+	}
+	n := 0
+	for _, b := range wnp.Blocks {
+		for _, in := range b.Instrs {
+			c, ok := in.(*ssa.Call)
+			if !ok {
+				continue
+			}
+			if bi, isB := c.Call.Value.(*ssa.Builtin); isB && bi.Name() == "append" {
+				// the append that adds the new peer (a copy of the existing list is not concerned)
+				if len(c.Call.Args) < 2 || len(wnp.Params) < 2 || !dependsOn(c.Call.Args[1], func(x ssa.Value) bool { return x == ssa.Value(wnp.Params[1]) }) {
+					continue
+				}
+				n++
+				q := func(l Lit) bool {
+					lk, present, ok := lookupLit(l)
+					if !ok || present {
+						return false
+					}
+					fv, _ := fieldOf(lk.X)
+					return fv != nil && refName(fv) == "ByID"
+				}
+				g, _ := p.allPaths(c, []Pred{q}, all(1))
+				r.Check(g, rule, "WithNewPeer:no-duplicates", p.ipos(c), fnName(wnp), "a peer already in the set — by id, whatever the spelling of its key — is not appended again", "WithNewPeer can append a peer that is already present: len(Peers) != Len() and TrustCount's n > 1 test uses the wrong count")
+			}
+		}
+	}
+	if n == 0 {
+		r.Fail(rule, "WithNewPeer:no-duplicates", p.pos(wnp.Pos()), fnName(wnp), "no append found in WithNewPeer")
+	}
 }
